@@ -90,6 +90,14 @@ func (x *c06Run) judgeStream(c *c06Stream, o *c06StreamObs, junkCheck func(strin
 	}
 	m.Count("stream_cases", 1)
 	m.Count("conn_"+c.Conn, 1)
+	if o.DataWithErr > 0 {
+		m.Count("sniffer_read_got_data_together_with_error", 1)
+		if c.EOFAfterChunks {
+			m.Count("sniffer_read_got_data_together_with_eof", 1)
+		} else {
+			m.Count("sniffer_read_got_data_together_with_timeout", 1)
+		}
+	}
 	ok := x.j.streamSafety(c, o, o.Timeout)
 	if o.Panic != "" || o.Hung != "" {
 		return
@@ -804,7 +812,36 @@ func TestVerifC06(t *testing.T) {
 	// ------------------------------------------------- QUIC
 	x.quic()
 
+	// the sniffer reads through a prefix-replaying wrapper: the client's first segment (<= 16 bytes,
+	// record header / start of the request line) was taken off the socket by a prefetch step, then
+	// the client goes quiet for longer than the timeout or half-closes, so the very Read that hands
+	// the sniffer those first bytes also carries the error
+	for i := 0; i < vk.Scale(12, 100); i++ {
+		it := items[r.IntN(len(items))]
+		k := 5 + r.IntN(12)
+		if k >= len(it.Rec) {
+			continue
+		}
+		c := x.tlsCase(it, "prefixed/stall-after-first-segment", c06Cut(it.Rec, []int{k}), false)
+		c.Conn, c.StallFrom = "prefixed", 1
+		timed = append(timed, c)
+		c2 := x.tlsCase(it, "prefixed/eof-after-first-segment", [][]byte{it.Rec[:k]}, false)
+		c2.Conn, c2.EOFAfterChunks, c2.Tail = "prefixed", true, nil
+		timed = append(timed, c2)
+		h := heads[r.IntN(len(heads))]
+		hk := 1 + r.IntN(min(16, len(h.Bytes)-1))
+		r2 := c06SameOrNone
+		if !h.HasHost {
+			r2 = c06None
+		}
+		timed = append(timed, &c06Stream{Proto: "http", Feat: h.Feat, Chunk: "prefixed/stall-after-first-segment", Chunks: c06Cut(h.Bytes, []int{hk}), StallFrom: 1, Rule: r2, Carried: h.HostName,
+			Drain: x.pickDrain(), Conn: "prefixed", Tail: x.tail(), Kind: "prefixed/stall"})
+		timed = append(timed, &c06Stream{Proto: "http", Feat: h.Feat, Chunk: "prefixed/eof-after-first-segment", Chunks: [][]byte{h.Bytes[:hk]}, EOFAfterChunks: true, Rule: c06Free,
+			Drain: x.pickDrain(), Conn: "prefixed", Kind: "prefixed/eof"})
+	}
+
 	x.parallel(timed, 24)
+	m.Require("conn_prefixed", "sniffer_read_got_data_together_with_timeout", "sniffer_read_got_data_together_with_eof")
 
 	m.Require("outcome_found", "outcome_notfound", "outcome_notapplicable", "outcome_timeout",
 		"outcome_found_tls", "outcome_found_http", "quic_found", "guard_selftest_fault_caught", "quic_codec_validated_against_quic_go",
